@@ -76,6 +76,14 @@ func main() {
 		seed, _ := strconv.ParseUint(os.Args[4], 10, 64)
 		i, _ := strconv.Atoi(os.Args[5])
 		os.Exit(mon.ShardMain(p, os.Args[3], seed, i, os.Args[6]))
+	case "racecanary":
+		os.Exit(props.C16Canary())
+	case "raceload":
+		// raceload <seed> <goroutines> <iters> <out>
+		seed, _ := strconv.ParseUint(os.Args[2], 10, 64)
+		g, _ := strconv.Atoi(os.Args[3])
+		it, _ := strconv.Atoi(os.Args[4])
+		os.Exit(props.C16Load(seed, g, it, os.Args[5]))
 	case "replay":
 		p := props.Registry[os.Args[2]]
 		if p == nil {
